@@ -116,6 +116,58 @@ fn dd_d<const D: usize>(s: &SampleGenerator<D>, p: &Phys, ctx: &mut Ctx) -> Resu
         fail!("lambda-not-f64", "lambda = {:?} has a non-zero low word although the gamma draw is documented to be f64", md.lambda);
     }
     let lq = mat_q(&md.l_matrix);
+    // decider 3: the L matrix against the sector formula evaluated by the oracle in double-double arithmetic
+    // (exponents 1/omega formed in the user's type from the table's f64 omegas, as the property demands)
+    {
+        let tab = sut::table_of(s).map_err(|e| Failure::new("table-unreadable", e))?;
+        let reft = g.table_f64();
+        let omega_ref: Vec<f64> = reft.iter().map(|e| e.2).collect();
+        let jr = g.j_f64(&omega_ref);
+        let path = crate::oracle::path::simulate(ne, &omega_ref, &jr, &p.x, 64.0 * EPS);
+        let one = DD::f(1.0);
+        let mut kappa = one;
+        let mut x0 = vec![one; ne];
+        let (mut ut, mut vt) = (one, one);
+        let mut sub = g.full();
+        for (step, &e) in path.order.iter().enumerate() {
+            x0[e] = kappa;
+            let nxt = sub ^ (1 << e);
+            if tab.entries[sub].spanning && !tab.entries[nxt].spanning {
+                vt = x0[e];
+            }
+            if tab.entries[nxt].loops < tab.entries[sub].loops {
+                ut = ut * x0[e];
+            }
+            sub = nxt;
+            if sub != 0 {
+                let xi = DD::f(p.x[2 * step + 1]);
+                kappa = kappa * xi.powf(&DD::f(tab.entries[sub].omega).inv());
+            }
+        }
+        let dh = D as f64 / 2.0;
+        let xit = ut * vt;
+        let target = ut.powf(&DD::f(-dh)) * (ut / xit).powf(&DD::f(tab.dod));
+        let scaling = target.powf(&DD::f(dh * nl as f64 + tab.dod).inv());
+        let xs: Vec<DD> = x0.iter().map(|x| *x * scaling).collect();
+        let amp = 1.0 + path.sens_rel.iter().cloned().fold(0.0, f64::max) + target.hi.ln().abs();
+        for i in 0..nl {
+            for j in 0..nl {
+                let mut want = Q::zero();
+                let mut absum = 0.0;
+                for e in 0..ne {
+                    let c = (p.kin.sig[e][i] * p.kin.sig[e][j]) as f64;
+                    want += xs[e].q() * crate::oracle::graph::q(c);
+                    absum += (xs[e].hi * c).abs();
+                }
+                let err = qf(&(&lq[i][j] - &want).abs());
+                let t_ = 1e-24 * amp * absum;
+                ctx.max("dd_sector_formula_over_tol", if t_ > 0.0 { err / t_ } else { 0.0 });
+                if !(err <= t_) {
+                    fail!("dd-sector-precision", "double-double run: L[{i}][{j}] differs from the sector formula evaluated in double-double arithmetic by {err:e} > {t_:e} (relative {:e}): some factor of the Feynman parameters was computed in f64; case {p:?}", err / absum.max(1e-300));
+                }
+            }
+        }
+    }
     let Some((detq, invq)) = lin::det_inv(&lq) else {
         ctx.label("dd:skip-singular");
         return Ok(None);
